@@ -56,6 +56,12 @@ THEOREMS = [
     "SleapVerif.C19.artefacts_complete_same_folder",
     "SleapVerif.C19.train_total_same_folder",
     "SleapVerif.C19.no_key_after_interrupted_A",
+    "SleapVerif.C19.run_key_independent",
+    "SleapVerif.C19.initial_config_key_independent",
+    "SleapVerif.C19.initial_config_is_supplied_any_key",
+    "SleapVerif.C19.artefacts_complete_any_key",
+    "SleapVerif.C19.no_key_at_any_crash_point_any_key",
+    "SleapVerif.C19.asIs_without_key_eq_repaired",
     "SleapVerif.C19.no_key_at_any_crash_point_low_memory",
     "SleapVerif.C19.artefacts_complete_low_memory",
     "SleapVerif.C19.train_total_low_memory",
@@ -75,6 +81,8 @@ THEOREMS = [
 ]
 
 KEY = "VERIFSECRETKEY123"
+# how the configuration carries the key: present | "" | None (| field missing | wandb section missing: plain configs only)
+KEY_VALUE = {"present": KEY, "empty": "", "none": None, "nofield": None, "nosection": None}
 MODELS = ["single_instance", "centroid", "centered_instance", "bottomup"]
 FWS = ["torch_dataset", "torch_dataset_np_chunks"]
 
@@ -429,12 +437,16 @@ def plain_config(case, run):
             "use_wandb": case["wandb"], "save_ckpt": case["ckpt"], "save_ckpt_path": run["ckpt_dir"],
             "resume_ckpt_path": None,
             "wandb": {"entity": None, "project": "verif", "name": "c19", "wandb_mode": "offline",
-                      "api_key": KEY, "prv_runid": None, "group": None},
+                      "api_key": KEY_VALUE.get(case.get("key", "present"), KEY), "prv_runid": None, "group": None},
             "optimizer_name": "Adam", "optimizer": {"lr": case.get("lr", 1e-4), "amsgrad": False},
             "lr_scheduler": {"reduce_lr_on_plateau": {"threshold": 1e-07, "threshold_mode": "rel", "cooldown": 3,
                                                       "patience": 5, "factor": 0.5, "min_lr": 1e-08}},
         },
     }
+    if case.get("key") == "nofield":      # wandb section without an api_key field
+        del d["trainer_config"]["wandb"]["api_key"]
+    elif case.get("key") == "nosection":  # no wandb section at all (tracking off)
+        del d["trainer_config"]["wandb"]
     y = Path(run["scratch"]) / "input_config.yaml"      # outside the scanned output directories
     OmegaConf.save(OmegaConf.create(d), y)
     return OmegaConf.load(y)
@@ -455,7 +467,7 @@ def structured_config(case, run):
     tc = get_trainer_config(batch_size=1, shuffle_train=False, num_workers=0, trainer_num_devices=1,
                             trainer_accelerator="cpu", steps_per_epoch=1, max_epochs=case["epochs"], seed=case["seed"],
                             use_wandb=case["wandb"], save_ckpt=case["ckpt"], save_ckpt_path=run["ckpt_dir"],
-                            wandb_project="verif", wandb_name="c19", wandb_api_key=KEY, wandb_mode="offline",
+                            wandb_project="verif", wandb_name="c19", wandb_api_key=KEY_VALUE.get(case.get("key", "present"), KEY), wandb_mode="offline",
                             learning_rate=case.get("lr", 1e-4), lr_scheduler="reduce_lr_on_plateau",
                             ckpt_save_top_k=1, ckpt_save_last=(True if case.get("save_last", True) else None),
                             early_stopping=bool(case.get("early_stop")), early_stopping_patience=20)
@@ -832,7 +844,7 @@ def run_impl(case, scratch=None, ckpt_name="ckpt", carried=None, carried_mode=No
             diffs = initial_vs_raw(raw_input, ini[1])
             rec["final"]["initial_equals_supplied"] = not diffs
             rec["final"]["initial_diffs"] = diffs[:6]
-            rec["final"]["initial_key_field"] = ini[1]["trainer_config"]["wandb"].get("api_key")
+            rec["final"]["initial_key_field"] = (ini[1]["trainer_config"].get("wandb") or {}).get("api_key")
         snap = fit_snapshot.get("cfg")
         rec["final"]["fit_entered"] = snap is not None
         if trn and trn[0] == "yaml" and snap is not None:
@@ -841,7 +853,7 @@ def run_impl(case, scratch=None, ckpt_name="ckpt", carried=None, carried_mode=No
             want, _ = norm_cfg(snap)
             got, bits = norm_cfg(trn[1])
             rec["final"]["training_equals_used"] = (got == want) and (bits["runid"] == bool(case["wandb"]))
-            rec["final"]["training_key_field"] = trn[1]["trainer_config"]["wandb"].get("api_key")
+            rec["final"]["training_key_field"] = (trn[1]["trainer_config"].get("wandb") or {}).get("api_key")
             rec["final"]["training_has_run_id"] = bits["runid"]
         used_ref = norm_cfg(snap)[0] if snap is not None else final
         # checkpoints written by THIS run = *.ckpt files whose stored config is the config this run used
@@ -1046,8 +1058,10 @@ def check_case(chk: Check, case, rec=None):
         lines = [flags_line("tracea", "repaired", case, rounds), flags_line("fsa", "repaired", case, rounds),
                  flags_line("tracea", "asis", case, rounds), flags_line("fsa", "asis", case, rounds)]
     else:
+        ks = "present" if case.get("key", "present") == "present" else "absent"
+        # the repaired lines do not take the key state: `run_key_independent` says the trace is the same
         lines = [flags_line("trace", "repaired", case, rounds), flags_line("fs", "repaired", case, rounds),
-                 flags_line("trace", "asis", case, rounds), flags_line("fs", "asis", case, rounds)]
+                 flags_line(f"tracek {ks}", "asis", case, rounds), flags_line(f"fsk {ks}", "asis", case, rounds)]
     out = run_driver("C19.lean", lines)
     if not all(o.startswith("ok") for o in out):
         raise RuntimeError(f"driver rejected case {case}: {out}")
@@ -1060,7 +1074,7 @@ def check_case(chk: Check, case, rec=None):
            case["sep_chunks"], case["epochs"], bool(case.get("reuse")), bool(case.get("same_folder")),
            json.dumps(case.get("run1"), sort_keys=True) if case.get("same_folder") else None,
            case.get("save_last", True), json.dumps(case.get("abort")), case.get("crash_at"),
-           bool(case.get("auto_prep")), bool(case.get("early_stop")), bool(case.get("low_mem")))
+           bool(case.get("auto_prep")), bool(case.get("early_stop")), bool(case.get("low_mem")), case.get("key", "present"))
     chk.case(key, {"case": case, "impl_trace": rec["trace"], "crash_points_scanned": len(rec["boundaries"]),
                    "wall_s": rec["wall"]},
              tags=[f"model={case['model']}", f"fw={case['fw']}", f"wandb={case['wandb']}", f"ckpt={case['ckpt']}",
@@ -1071,7 +1085,7 @@ def check_case(chk: Check, case, rec=None):
                    "rounds=" + ("".join("T" if r else "F" for r in rounds) or "-") if case["ckpt"] else "rounds=n/a(ckpt off)",
                    f"abort={case['abort']['kind']}@epoch{case['abort']['epoch']}" if case.get("abort") else "abort=no",
                    f"killed_after_write={case['crash_at']}" if case.get("crash_at") else "killed=no",
-                   f"low_memory_fallback={bool(case.get('low_mem'))}",
+                   f"low_memory_fallback={bool(case.get('low_mem'))}", f"api_key={case.get('key', 'present')}",
                    f"auto_prep(scale/crop None)={bool(case.get('auto_prep'))}", f"early_stopping={bool(case.get('early_stop'))}"]
              + ([f"A_left_ckpt={rec.get('a_left_ckpt')}", f"A_killed={case['run1'].get('crash_at') is not None}"]
                 if case.get("same_folder") else []))
@@ -1207,6 +1221,11 @@ def main(chk: Check):
                             low_mem=True, **opt()))
         for _ in range(8):      # chunk framework requested: the memory check is not consulted
             cases.append(rand_case(rng, fw="torch_dataset_np_chunks", low_mem=True, **opt()))
+        for m, kk, fw in itertools.product(MODELS, ["empty", "none", "nofield", "nosection"], FWS):   # no key in the config
+            for _ in range(2):
+                plain_only = kk in ("nofield", "nosection")
+                cases.append(rand_case(rng, model=m, fw=fw, key=kk, structured=(False if plain_only else rng.random() < 0.5),
+                                       wandb=(False if kk == "nosection" else rng.random() < 0.5), **opt()))
     else:
         ms = MODELS[:]
         rng.shuffle(ms)
@@ -1244,6 +1263,13 @@ def main(chk: Check):
                 cases.append(mk(m, "torch_dataset", rng.random() < 0.5, rng.random() < 0.5, rng.random() < 0.5, d,
                                 sep=rng.random() < 0.7, seed=rng.randrange(2**31), low_mem=True, **opt()))
         cases.append(rand_case(rng, fw="torch_dataset_np_chunks", low_mem=True))   # check not consulted
+        # configurations WITHOUT an API key, one per model type: "" / None / no api_key field / no wandb section
+        kinds = ["empty", "none", "nofield", "nosection"]
+        rng.shuffle(kinds)
+        for m, kk in zip(MODELS, kinds):
+            plain_only = kk in ("nofield", "nosection")
+            cases.append(rand_case(rng, model=m, key=kk, structured=(False if plain_only else rng.random() < 0.5),
+                                   wandb=(False if kk == "nosection" else rng.random() < 0.5), **opt()))
     verdicts = {}
     for i, case in enumerate(cases):
         rec, verdict = check_case(chk, case)
@@ -1326,8 +1352,8 @@ if __name__ == "__main__":
              "Ctrl-C at the start of epoch 0, 1 or 2); fresh run on a low-memory host (the trainer module's psutil reports 1 byte "
              "available -> fallback to chunks in the working directory; 4 model types x deletion on/off). quick: 2 former-finding witnesses + 4 covering + 1 random fresh, 3 reuse + "
              "3 same-folder + 1 killed-A histories, 2 aborted runs, the F-C19c witness history and 1-4 multi-epoch runs until one "
-             "has a non-improved epoch plus 9 low-memory runs (35-38 trainings). thorough: all 128 fresh grid points (save_last etc. random), 64 reuse, "
-             "128 same-folder, 16 killed-A histories, 18 aborted, 72 low-memory, 8+ multi-epoch. distinct = distinct case tuple.",
+             "has a non-improved epoch plus 9 low-memory runs and 4 runs without an API key, one per model type (39-42 trainings). thorough: all 128 fresh grid points (save_last etc. random), 64 reuse, "
+             "128 same-folder, 16 killed-A histories, 18 aborted, 72 low-memory, 64 without a key, 8+ multi-epoch. distinct = distinct case tuple.",
         assumptions=["single process, rank 0 (get_dist_rank() is None); num_workers = 0",
                      "model_ckpt.save_top_k is pinned to 1 (save_last is a flag); with save_top_k >= 2 a fresh run writes "
                      "best-v1.ckpt itself, with 0 no best.ckpt — not modelled, never run",
@@ -1335,8 +1361,8 @@ if __name__ == "__main__":
                      "type (anything else is rejected by ModelTrainer.__init__); re-use runs always have scale given (with "
                      "scale=None __init__ would fill it in and the second file would no longer be the supplied config)",
                      "litdata framework is outside the property's quantifier; UNet backbone only",
-                     "the key is present in the supplied config in every run (api_key=None / absent never run); "
-                     "save_ckpt_path is always given (None -> '.' never run); resume_ckpt_path, prv_runid, profiler, "
+                     "histories, aborted and low-memory runs always carry a key; runs without one ('' / None / field missing / "
+                     "wandb section missing) are fresh runs; save_ckpt_path is always given (None -> '.' never run); resume_ckpt_path, prv_runid, profiler, "
                      "trainer_strategy, rank != 0: never run",
                      "a same-folder history has two runs; use_existing_chunks in the same folder is not run"],
     )
